@@ -9,7 +9,7 @@ Cases == ndJsonDeserialize(IOEnv.CASES)
 VARIABLE l
 
 \* tags for one value key at one level of the projected key tree
-KeyTags(level, name, syms, pres, a) ==
+KeyTags(level, name, syms, pres, a, interp) ==
     IF name \notin DOMAIN level THEN {"nokey:" \o name}
     ELSE LET e == level[name]
              locs == <<a.def>> \o a.nondef IN
@@ -18,7 +18,7 @@ KeyTags(level, name, syms, pres, a) ==
                           p == IF x = a.def THEN "def" ELSE pres[x]
                           src == Source(x, a.inh, pres, a.def) IN
                         (IF e.src[x] # src THEN {"src:" \o name \o ":" \o x} ELSE {})
-                        \cup (IF e.vals[x] # ExpectVal(x, a.def, syms, p) THEN {"val:" \o name \o ":" \o x} ELSE {})
+                        \cup (IF e.vals[x] # ExpectValX(x, a.def, syms, p, interp) THEN {"val:" \o name \o ":" \o x} ELSE {})
                         \cup (IF x # a.def /\ p # "def"
                                  /\ ~(src \in DOMAIN e.computed /\ x \in Range(e.computed[src]))
                               THEN {"computed:" \o name \o ":" \o x} ELSE {})
@@ -32,12 +32,12 @@ CaseTags(ev) ==
     IF ev.load.outcome # "Ok" THEN {"outcome:" \o ev.load.outcome}
     ELSE LET top == ev.load.units[1].keys IN
          UNION { LET k == a.keys[i] IN
-                   IF k.kind = "v" THEN KeyTags(top, k.name, k.syms, k.pres, a)
+                   IF k.kind \in {"v", "i"} THEN KeyTags(top, k.name, k.syms, k.pres, a, k.kind = "i")
                    ELSE IF k.name \notin DOMAIN top THEN {"nokey:" \o k.name}
                    ELSE IF top[k.name].t # "sub" THEN {"notgroup:" \o k.name}
                    ELSE UNION { KeyTags(top[k.name].keys, k.leaves[j].name,
                                         k.syms \o <<"DOT">> \o k.leaves[j].syms,
-                                        Eff(k.gp, k.leaves[j].pres), a) : j \in DOMAIN k.leaves }
+                                        Eff(k.gp, k.leaves[j].pres), a, FALSE) : j \in DOMAIN k.leaves }
                  : i \in DOMAIN a.keys }
 
 \* L2: what the generated accessor renders for key j (leaf q of a group, 0 for a value key) in locale x:
@@ -45,11 +45,11 @@ CaseTags(ev) ==
 RenderTags(ev) ==
     LET a == Cases[ev.case].abs
         k == a.keys[ev.j]
-        pres == IF k.kind = "v" THEN k.pres ELSE Eff(k.gp, k.leaves[ev.q].pres)
-        syms == IF k.kind = "v" THEN k.syms ELSE k.syms \o <<"DOT">> \o k.leaves[ev.q].syms
+        pres == IF k.kind \in {"v", "i"} THEN k.pres ELSE Eff(k.gp, k.leaves[ev.q].pres)
+        syms == IF k.kind \in {"v", "i"} THEN k.syms ELSE k.syms \o <<"DOT">> \o k.leaves[ev.q].syms
         src == Source(ev.locale, a.inh, pres, a.def) IN
     IF ev.outcome # "Ok" THEN {"render-outcome:" \o ev.outcome}
-    ELSE IF ev.out = TextOf(src, syms) THEN {} ELSE {"rendered-locale:" \o k.name \o ":" \o ev.locale}
+    ELSE IF ev.out = TextOf(src, syms) \o (IF k.kind = "i" THEN <<"SP">> \o XVal ELSE <<>>) THEN {} ELSE {"rendered-locale:" \o k.name \o ":" \o ev.locale}
 
 Tags(ev) == IF ev.ev = "Load" THEN CaseTags(ev)
             ELSE IF ev.ev = "Render" THEN RenderTags(ev)
